@@ -60,7 +60,7 @@ CLAIMS = {
   technique='write-budget abstract interpretation over the CFG of SerializeImpl (E4: lower bound of reserved-but-unwritten bytes, affine in the string length, min-join, widening); dominance rules for error exits',
   text=("Decides: (a) along every path of SerializeImpl (both node types, loops by fixpoint) each PushUnsafe / PushSizeUnsafe / Push5_8 and each writer called at wb.End() (Quote, U64toa, I64toa, F64toa) is covered by "
         "the Grow/Reserve in force since the last consumption, using the callees' write contracts; (b) a non-positive F64toa result never reaches a push and the three error classes plus the kind-switch default reach a non-zero return without writing; "
-        "Dump returns ToString() only on kErrorNone; (c) ToString grows before writing the terminator; (d) structural obligations of the number writers shared with C07/C08 (Schubfach interval endpoints open exactly for odd significands; no lossy 64->32 truncation in ftoa.h/itoa.h). NOT decided: separator/Pop logic producing well-formed text, round-trip equality."),
+        "Dump returns ToString() only on kErrorNone; (c) ToString grows before writing the terminator; (d) structural obligations of the number writers shared with C07/C08 (Schubfach interval endpoints open exactly for odd significands; no lossy 64->32 truncation in ftoa.h/itoa.h). NOT decided: round-trip equality end to end."),
   note='Trusted: clang 14 front end; writer contracts (cross-referenced to C07/C08/C09 evidence); node type invariant for the inner kind switch.',
   design='5/C06'),
  'C07': dict(
@@ -198,7 +198,7 @@ ADDENDA = {
  'C03': "Added later: every Is* type predicate evaluated for every type tag and integer payloads around 2^63 (E5.kind-predicate); escape tables, surrogate arithmetic and the UTF-8 encoder (shared with C05); white-space table, SIMD mask width and composition for both kernels (shared with C15); scalar events store their value in their own kind (E9.event-kind, shared with C19).",
  'C04': "Added later: a zero mantissa never reaches the normalising converters (E2.nonzero-mantissa), SetDecimal's decimal point accounts for dropped digits (E2.decimal-point), every digit loop adds the digit, sets the truncation flag or runs only on '0' (E2.trunc-set), the ambiguity window of ParseFloatingNormalFast (E5.ambiguity-window), simd_str2int evaluated over the digit basis instead of trusted (E5.simd-digits), the infinity error set by parseNumber reaches the caller unchanged (E1.first-error, shared with C01), the Decimal digit buffer capacity discipline (E3.digit-capacity, shared with C02).",
  'C05': "Added later: the byte after a high surrogate's escape is tested as an escape introducer at the right offsets (E2.escape-introducer); the unsigned vector relational operators really are unsigned (E9.unsigned-lanes); for on-demand keys the has-escape flag, the hand-over of the escape carry between SkipString's loops and the GetEscaped bit trick (evaluated against the sequential definition for all 10/16-bit backslash masks, E5.escaped-bits) decide where a key literal ends; the error class set by the string scanner is kept (E1.first-error). Runs on K1, K3 and K4 in the quick tier.",
- 'C06': "Added later: Stack::Grow is evaluated, no longer trusted (E4.grow-contract); non-finite doubles of both signs are refused, not printed (E5.nonfinite); the string writer's reserve formula, tail page guard and bounce copy (shared with C09) also under K8 (dynamic dispatch on an SSE baseline); each number kind goes to the writer of its own signedness (E9.kind-dispatch); every character of a number text is a digit (E3.kdigits-index for ftoa.h, E3.digit-char); capacity rounding is a true round-up (E5.round-up); escape tables (C09/C05).",
+ 'C06': "Added later: Stack::Grow is evaluated, no longer trusted (E4.grow-contract); non-finite doubles of both signs are refused, not printed (E5.nonfinite); the string writer's reserve formula, tail page guard and bounce copy (shared with C09) also under K8 (dynamic dispatch on an SSE baseline); each number kind goes to the writer of its own signedness (E9.kind-dispatch); every character of a number text is a digit (E3.kdigits-index for ftoa.h, E3.digit-char); capacity rounding is a true round-up (E5.round-up); escape tables (C09/C05). The separator / bracket / parent-stack logic - previously not decided - is now decided up to a bound: SerializeImpl's CFG is interpreted for every DOM tree shape of nesting depth <= 2 with <= 2 members over {number, string}, depth 3 with restricted arity (thorough: arity 2 everywhere, ~27000 shapes), every leaf kind in every position of arrays of <= 3 and objects of <= 2 members, and the error trees (non-string key, non-finite double); node / write-buffer / stack methods are answered from a model of the library's node layout, the value writers by their contracts; the text left in the buffer must equal the minified JSON text of the tree (E6.serializer).",
  'C07': "Added later: the exponent computation evaluated for all 2046 binary exponents with undefined-behaviour detection; non-finite patterns by evaluation (E5.nonfinite); the interval-endpoint parity rule restated semantically (E9.interval-parity); no lossy 64->32 narrowing in ftoa.h (E3.lossless-narrowing); every digit pair copied from the two-digit table lies inside the 100 pairs and every '0'+x has x in [0,9] under the path guards (E3.kdigits-index, E3.digit-char; contract: decimal exponent in [-343, 308]).",
  'C08': "Added later: the U64toa dispatch evaluated at every digit-count boundary (exact group decomposition, E5.split); I64toa evaluated on the int64 boundary values with undefined-behaviour detection (E2.sign; found and fixed 4bed96e); scalar reciprocals (v*M)>>S divide exactly on v's interval (E5.reciprocal); the serializer's number sub-type switch sends each kind to a writer of its own signedness (E9.kind-dispatch).",
  'C09': "Added later: DoEscape reads the source cursor only with a byte remaining (E2.escape-peek); the unsigned vector compares are unsigned (E9.unsigned-lanes); all rules also run on K4 and K8 (dynamic dispatch, AVX2 and SSE baselines) in the quick tier, so a reservation chosen by a compile-time ISA macro is checked against the widest kernel that can run.",
